@@ -1,6 +1,7 @@
 import PicoProofs.EncRefine
 import PicoProofs.EncProg
 import PicoProofs.Tie
+import PicoModel.Sample
 /-
 C01 — Marshal output is valid protobuf carrying exactly the message's values.
 
@@ -48,5 +49,9 @@ theorem C01_map_field (k v : Scalar) (f : Nat) (es : List (Val × Val))
 theorem C01_tables : Tie.sameRows Gen.encRows Tie.expectedEncRows = true ∧
     (Tie.sameRows Gen.mapRows Tie.expectedMapRows = true ∧ Gen.mapExtraFuncs = []) :=
   ⟨Tie.encoder_table_expected, Tie.map_table_expected⟩
+
+/-- non-vacuity: a well-typed value (nil pointers included) of a schema with a oneof, a map, a
+nested capturing and a recursive message -/
+example : wtMsg S1 false 0 v1 = true := by decide +kernel
 
 end Pico.Props
